@@ -1,6 +1,473 @@
-//! C07 — not built yet (stub; replaced by the real check).
+//! C07 — PSET serialization round-trips and re-serialization is a fixpoint.
+use std::str::FromStr;
+
+use elements::confidential::AssetBlindingFactor;
+use elements::encode::{deserialize, serialize};
+use elements::pset::elip100::{AssetMetadata, TokenMetadata};
+use elements::pset::PartiallySignedTransaction as Pset;
+use elements::OutPoint;
+use serde_json::json;
+
 use crate::engine::*;
+use crate::gen::pset::{self as gp, PsetOpts};
+use crate::gen::{self};
+use crate::refimpl::psetraw::{self, RawMap, RawPair};
+use crate::{ensure, ensure_eq};
+
+pub const KF_TAPTREE: &str = "taptree-codec-reverses-leaf-order";
+
+fn ser(p: &Pset) -> Result<Vec<u8>, Failure> {
+    guard::guard("serialize(pset)", 0, || serialize(p))
+}
+fn de(b: &[u8]) -> Result<Result<Pset, elements::encode::Error>, Failure> {
+    guard::guard("deserialize(pset)", b.len(), || deserialize::<Pset>(b))
+}
+
+/// equality including the tap-tree leaves that `TapTree`'s PartialEq (root hash only) cannot see
+pub fn pset_eq(a: &Pset, b: &Pset) -> bool {
+    a == b && gp::all_tap_leaves(a) == gp::all_tap_leaves(b)
+}
+
+/// For an accepted byte string: c = encode(decode(b)) decodes to an equal PSET and re-encodes to itself.
+/// Returns whether `b` was accepted.
+pub fn fixpoint(b: &[u8], ctx: &mut Ctx) -> Result<Option<Pset>, Failure> {
+    ctx.eval();
+    let p = match de(b)? {
+        Err(_) => return Ok(None),
+        Ok(p) => p,
+    };
+    let c = ser(&p)?;
+    let p2 = match de(&c)? {
+        Ok(p2) => p2,
+        Err(e) => return Err(Failure::new(format!("canonical re-encoding of an accepted PSET is rejected: {}\n input ={}\n reenc ={}", e, hex(b), hex(&c)))),
+    };
+    if !pset_eq(&p, &p2) {
+        return Err(Failure::new(format!("decode(encode(decode(b))) != decode(b)\n input ={}\n reenc ={}", hex(b), hex(&c))));
+    }
+    let c2 = ser(&p2)?;
+    if c2 != c {
+        // tap-tree leaf order oscillation is a listed finding when (and only when) it is the sole difference
+        let only_taptree = p.outputs().iter().any(|o| o.tap_tree.is_some()) && {
+            let mut x = p2.clone();
+            let mut y = match de(&c2)? {
+                Ok(y) => y,
+                Err(_) => return Err(Failure::new("third decode failed".to_string())),
+            };
+            for o in x.outputs_mut() {
+                o.tap_tree = None;
+            }
+            for o in y.outputs_mut() {
+                o.tap_tree = None;
+            }
+            serialize(&x) == serialize(&y)
+        };
+        if only_taptree && ctx.is_known(KF_TAPTREE) {
+            return Ok(Some(p));
+        }
+        return Err(Failure::new(format!("re-serialization is not a fixpoint: encode(decode(c)) != c; {}", first_diff(&c, &c2))));
+    }
+    Ok(Some(p))
+}
+
+/// where two byte strings first differ, with context
+pub fn first_diff(a: &[u8], b: &[u8]) -> String {
+    let n = a.iter().zip(b.iter()).take_while(|(x, y)| x == y).count();
+    let lo = n.saturating_sub(24);
+    format!(
+        "lengths {} / {}, first difference at offset {}:\n a[{}..]={}\n b[{}..]={}",
+        a.len(),
+        b.len(),
+        n,
+        lo,
+        hex(&a[lo..(n + 40).min(a.len())]),
+        lo,
+        hex(&b[lo..(n + 40).min(b.len())])
+    )
+}
+
+fn roundtrip(t: &mut Tape, ctx: &mut Ctx) -> R {
+    let mut p = gp::gen_pset(t, &PsetOpts::default());
+    // ELIP-100 / ELIP-102 data set through the accessors
+    let mut elip: Vec<(elements::AssetId, AssetMetadata)> = Vec::new();
+    let mut elip_tok: Vec<(elements::AssetId, TokenMetadata)> = Vec::new();
+    let mut abfs: Vec<(bool, usize, AssetBlindingFactor)> = Vec::new();
+    if t.chance(80) {
+        let id = gen::gen_asset_id(t);
+        let l = t.below(60);
+        let contract: String = (0..l).map(|_| t.choose(&['{', '}', '"', 'a', ':', '1', ' ', 'é', 'x'])).collect();
+        let m = AssetMetadata::new(contract, OutPoint { txid: gen::gen_txid(t), vout: t.edgy_u32() });
+        let prev = guard::guard("add_asset_metadata", 0, || p.add_asset_metadata(id, &m))?;
+        ensure!(prev.is_none() || elip.iter().any(|(i, _)| *i == id), "add_asset_metadata reported a previous value on first insertion");
+        elip.push((id, m));
+        let tid = gen::gen_asset_id(t);
+        let tm = TokenMetadata::new(gen::gen_asset_id(t), t.bool());
+        guard::guard("add_token_metadata", 0, || p.add_token_metadata(tid, &tm))?;
+        elip_tok.push((tid, tm));
+    }
+    if t.chance(80) {
+        if !p.inputs().is_empty() {
+            let k = t.below(p.inputs().len());
+            let abf = crate::gen::ct::abf_from(t, 7);
+            p.inputs_mut()[k].set_abf(abf);
+            abfs.push((true, k, abf));
+        }
+        if !p.outputs().is_empty() {
+            let k = t.below(p.outputs().len());
+            let abf = crate::gen::ct::abf_from(t, 8);
+            p.outputs_mut()[k].set_abf(abf);
+            abfs.push((false, k, abf));
+        }
+    }
+    let bytes = ser(&p)?;
+    ctx.eval();
+    let back = match de(&bytes)? {
+        Ok(b) => b,
+        Err(e) => {
+            return Err(Failure::new(format!(
+                "a well-formed PSET does not deserialize from its own serialization: {} ({:?})\n features={:?}\n bytes={}",
+                e,
+                e,
+                gp::pset_features(&p),
+                hex(&bytes)
+            )))
+        }
+    };
+    if back != p {
+        return Err(Failure::new(format!("deserialize(serialize(p)) != p\n p   ={:?}\n back={:?}", p, back)));
+    }
+    let (la, lb) = (gp::all_tap_leaves(&p), gp::all_tap_leaves(&back));
+    if la != lb {
+        return Err(Failure::new(format!("tap tree leaves differ after a serialization hop: before={:?} after={:?}", la, lb)));
+    }
+    // base64 text
+    let text = guard::guard("pset.to_string", 0, || p.to_string())?;
+    match guard::guard("Pset::from_str", text.len(), || Pset::from_str(&text))? {
+        Ok(b2) => ensure!(pset_eq(&b2, &p), "from_str(to_string(p)) != p"),
+        Err(e) => return Err(Failure::new(format!("from_str rejects the PSET's own base64 form: {}", e))),
+    }
+    // accessors after the hop
+    for (id, m) in &elip {
+        match guard::guard("get_asset_metadata", 0, || back.get_asset_metadata(*id))? {
+            Some(Ok(g)) => ensure!(&g == m, "asset metadata differs after a hop: {:?} vs {:?}", g, m),
+            other => return Err(Failure::new(format!("asset metadata lost after a hop: {:?}", other.map(|r| r.is_ok())))),
+        }
+    }
+    for (id, m) in &elip_tok {
+        match guard::guard("get_token_metadata", 0, || back.get_token_metadata(*id))? {
+            Some(Ok(g)) => ensure!(&g == m, "token metadata differs after a hop"),
+            other => return Err(Failure::new(format!("token metadata lost after a hop: {:?}", other.map(|r| r.is_ok())))),
+        }
+    }
+    for (is_in, k, abf) in &abfs {
+        let got = if *is_in { back.inputs()[*k].get_abf() } else { back.outputs()[*k].get_abf() };
+        match got {
+            Some(Ok(g)) => ensure!(&g == abf, "ELIP-102 abf differs after a hop"),
+            other => return Err(Failure::new(format!("ELIP-102 abf lost after a hop: {:?}", other.map(|r| r.is_ok())))),
+        }
+    }
+    // the encoding of a well-formed PSET is itself canonical
+    match fixpoint(&bytes, ctx)? {
+        Some(_) => {}
+        None => return Err(Failure::new("own serialization rejected on second decode".to_string())),
+    }
+    let c = ser(&back)?;
+    if c != bytes {
+        let tap = p.outputs().iter().any(|o| o.tap_tree.is_some());
+        if !(tap && ctx.is_known(KF_TAPTREE)) {
+            return Err(Failure::new(format!("serialize(deserialize(serialize(p))) != serialize(p); {}", first_diff(&bytes, &c))));
+        }
+    }
+    let feats = gp::pset_features(&p);
+    for f in &feats {
+        ctx.class(&format!("feature:{}", f));
+    }
+    ctx.class(&format!("inputs:{} outputs:{}", p.inputs().len(), p.outputs().len()));
+    let multi_leaf = p.outputs().iter().filter_map(|o| o.tap_tree.as_ref()).any(|tt| gp::tap_tree_leaves(tt).len() >= 2);
+    if multi_leaf {
+        ctx.class("feature:tap-tree>=2-leaves");
+    }
+    if feats.iter().any(|f| ["in-taproot", "preimages", "pegin-fields", "proof-fields"].contains(f)) || multi_leaf {
+        ctx.nontrivial(&bytes);
+    }
+    let cls = format!("pset:{}", feats.join("+"));
+    if ctx.wants_sample("pset") && feats.len() >= 3 {
+        ctx.sample("pset", || json!({"inputs": p.inputs().len(), "outputs": p.outputs().len(), "features": feats, "encoded_len": bytes.len(),
+            "base64_prefix": text.chars().take(60).collect::<String>()}));
+    }
+    let _ = cls;
+    Ok(())
+}
+
+fn shuffle<T>(t: &mut Tape, v: &mut [T]) {
+    for i in (1..v.len()).rev() {
+        let k = t.below(i + 1);
+        v.swap(i, k);
+    }
+}
+
+const GLOBAL_MANDATORY: [u8; 4] = [0x02, 0x04, 0x05, 0xfb];
+
+/// byte-level variants of a valid encoding through the raw splitter
+fn byte_variants(t: &mut Tape, ctx: &mut Ctx) -> R {
+    let p = gp::gen_pset(t, &PsetOpts::default());
+    let bytes = ser(&p)?;
+    let Some(maps) = psetraw::split(&bytes) else {
+        return Err(Failure::panic("raw splitter cannot split a library encoding".to_string(), "src/refimpl/psetraw.rs".into()));
+    };
+    if psetraw::join(&maps) != bytes {
+        return Err(Failure::panic("raw splitter does not re-join identically".to_string(), "src/refimpl/psetraw.rs".into()));
+    }
+    let nin = p.inputs().len();
+    let mut m: Vec<RawMap> = maps.clone();
+    let kind = t.below(8);
+    let label;
+    let mut must_reject = false;
+    match kind {
+        0 => {
+            label = "reorder-pairs";
+            for map in m.iter_mut() {
+                shuffle(t, map);
+            }
+        }
+        1 => {
+            label = "duplicate-pair";
+            let mi = t.below(m.len());
+            if m[mi].is_empty() {
+                return Ok(());
+            }
+            let pi = t.below(m[mi].len());
+            let mut dup = m[mi][pi].clone();
+            if t.bool() && !dup.value.is_empty() {
+                // same key, another value
+                let k = t.below(dup.value.len());
+                dup.value[k] ^= 1;
+            }
+            let at = t.below(m[mi].len() + 1);
+            m[mi].insert(at, dup);
+            must_reject = true;
+        }
+        2 => {
+            label = "delete-mandatory-pair";
+            let mi = t.below(m.len());
+            let wanted: &[u8] = if mi == 0 { &GLOBAL_MANDATORY } else if mi <= nin { &[0x0e, 0x0f] } else { &[0x04] };
+            let w = wanted[t.below(wanted.len())];
+            let before = m[mi].len();
+            m[mi].retain(|pr| !(pr.key.len() == 1 && pr.key[0] == w));
+            if m[mi].len() == before {
+                return Ok(());
+            }
+            must_reject = true;
+        }
+        3 => {
+            label = "count-changed";
+            let w = if t.bool() { 0x04 } else { 0x05 };
+            let mut changed = false;
+            for pr in m[0].iter_mut() {
+                if pr.key == [w] && pr.value.len() == 1 {
+                    let old = pr.value[0];
+                    let new = if t.bool() || old == 0 { old + 1 } else { old - 1 };
+                    pr.value[0] = new;
+                    changed = true;
+                }
+            }
+            if !changed {
+                return Ok(());
+            }
+            must_reject = true;
+        }
+        4 => {
+            label = "preimage-byte-flipped";
+            let mut done = false;
+            for map in m.iter_mut().skip(1).take(nin) {
+                for pr in map.iter_mut() {
+                    if !done && matches!(pr.key.first(), Some(0x0a..=0x0d)) && pr.key.len() > 1 {
+                        if pr.value.is_empty() {
+                            pr.value.push(1);
+                        } else {
+                            let k = t.below(pr.value.len());
+                            pr.value[k] ^= 1 << t.below(8);
+                        }
+                        done = true;
+                    }
+                }
+            }
+            if !done {
+                return Ok(());
+            }
+            must_reject = true;
+        }
+        5 => {
+            label = "delete-optional-pair";
+            let mi = t.below(m.len());
+            if m[mi].is_empty() {
+                return Ok(());
+            }
+            let pi = t.below(m[mi].len());
+            m[mi].remove(pi);
+        }
+        6 => {
+            label = "insert-unknown-pair";
+            let mi = t.below(m.len());
+            let l = t.below(6);
+            let mut key = vec![t.range(0x30, 0xf0) as u8];
+            key.extend(t.bytes(l));
+            let vl = t.below(10);
+            m[mi].push(RawPair { key, value: t.bytes(vl) });
+        }
+        _ => {
+            label = "value-byte-mutated";
+            let mi = t.below(m.len());
+            if m[mi].is_empty() {
+                return Ok(());
+            }
+            let pi = t.below(m[mi].len());
+            let v = &mut m[mi][pi].value;
+            match t.below(3) {
+                0 if !v.is_empty() => {
+                    let k = t.below(v.len());
+                    v[k] ^= 1 << t.below(8);
+                }
+                1 => v.push(t.u8()),
+                _ => {
+                    v.pop();
+                }
+            }
+        }
+    }
+    let b2 = psetraw::join(&m);
+    if b2 == bytes {
+        return Ok(());
+    }
+    let accepted = fixpoint(&b2, ctx)?;
+    if must_reject {
+        if let Some(p2) = &accepted {
+            return Err(Failure::new(format!(
+                "a PSET encoding with `{}` was accepted\n variant={}\n decoded inputs={} outputs={}",
+                label,
+                hex(&b2),
+                p2.inputs().len(),
+                p2.outputs().len()
+            )));
+        }
+    }
+    ctx.class(&format!("variant:{}:{}", label, if accepted.is_some() { "accepted" } else { "rejected" }));
+    if accepted.is_some() || must_reject {
+        ctx.nontrivial(&b2);
+    }
+    if ctx.wants_sample(label) {
+        ctx.sample(label, || json!({"variant": label, "accepted": accepted.is_some(), "len": b2.len(), "maps": m.len()}));
+    }
+    Ok(())
+}
+
+pub fn corpus_psets() -> Vec<(String, Vec<u8>)> {
+    let mut out = Vec::new();
+    let dir = format!("{}/corpus/pset", VERIF_DIR);
+    if let Ok(rd) = std::fs::read_dir(&dir) {
+        let mut names: Vec<_> = rd.filter_map(|e| e.ok()).map(|e| e.path()).collect();
+        names.sort();
+        for p in names {
+            if let Ok(s) = std::fs::read_to_string(&p) {
+                if let Some(b) = unhex(&s) {
+                    out.push((p.file_name().map(|f| f.to_string_lossy().to_string()).unwrap_or_default(), b));
+                }
+            }
+        }
+    }
+    out
+}
+
+/// the repository's PSET vectors and mutants of them
+fn vectors(idx: u64, seed: u64, ctx: &mut Ctx) -> R {
+    let files = corpus_psets();
+    if files.is_empty() {
+        return Err(Failure::panic("no PSET corpus".into(), "src/props/c07.rs".into()));
+    }
+    let (name, bytes) = &files[idx as usize % files.len()];
+    let accepted = fixpoint(bytes, ctx)?;
+    ctx.class(&format!("vector:{}", if accepted.is_some() { "accepted" } else { "rejected" }));
+    if accepted.is_some() {
+        ctx.nontrivial(&("vector", name));
+    }
+    if let Some(maps) = psetraw::split(bytes) {
+        if psetraw::join(&maps) != *bytes && accepted.is_some() {
+            // the vector itself is not in the splitter's canonical framing (non-minimal sizes): fine
+            ctx.class("vector:non-canonical-framing");
+        }
+    }
+    let rnd = seeded_bytes(seed, idx, 2048);
+    let mut t = Tape::new(&rnd);
+    for _ in 0..40 {
+        let mut b = bytes.clone();
+        match t.below(4) {
+            0 => {
+                let k = t.below(b.len());
+                b[k] ^= 1 << t.below(8);
+            }
+            1 => {
+                let k = t.below(b.len());
+                b.truncate(k);
+            }
+            2 => {
+                let k = t.below(b.len());
+                b.remove(k);
+            }
+            _ => {
+                let k = t.below(b.len());
+                let v = t.u8();
+                b.insert(k, v);
+            }
+        }
+        let a = fixpoint(&b, ctx)?;
+        ctx.class(&format!("vector-mutant:{}", if a.is_some() { "accepted" } else { "rejected" }));
+    }
+    Ok(())
+}
+
+fn repro_taptree() -> bool {
+    let rnd = seeded_bytes(7, 7, 512);
+    let mut t = Tape::new(&rnd);
+    for _ in 0..20 {
+        if let Some((tt, _)) = gp::gen_tap_tree(&mut t, 5) {
+            if gp::tap_tree_leaves(&tt).len() >= 3 {
+                let mut p = Pset::new_v2();
+                let mut o = elements::pset::Output::default();
+                o.amount = Some(1);
+                o.asset = Some(gen::pool().assets[0]);
+                o.tap_tree = Some(tt);
+                p.add_output(o);
+                let a = serialize(&p);
+                if let Ok(p2) = deserialize::<Pset>(&a) {
+                    if serialize(&p2) != a {
+                        return true;
+                    }
+                }
+            }
+        }
+    }
+    false
+}
 
 pub fn property() -> Property {
-    Property { id: "C07", rule: "", assumptions: &[], subs: vec![], known: vec![] }
+    Property {
+        id: "C07",
+        rule: "roundtrip: tape-generated well-formed PSETs (0..3 inputs / outputs; each of ~45 input, ~20 output and the global \
+               optional fields present with a tape-chosen density; map sizes 0..3; tap trees of random shape up to 24 leaves; \
+               blinding absent / requested / complete; foreign and pset-prefixed proprietary keys, unknown key types; \
+               ELIP-100/102 data through the accessors); oracle: deserialize(serialize(p)) == p (tap trees compared leaf by \
+               leaf), base64 text round trip, accessors return what was stored after a hop, serialization is its own \
+               fixpoint. byte_variants: raw key/value re-framings of valid encodings (reorder, duplicate, delete mandatory, \
+               delete optional, count change, preimage flip, unknown pair, value mutation); oracle: accepted => c = \
+               encode(decode(b)) decodes to an equal PSET and re-encodes to itself; duplicates, missing mandatory fields, \
+               count mismatches, invalid preimages => Err. vectors: the repository's 30 PSET vectors + 40 byte mutants \
+               each. Non-trivial: >=1 taproot / preimage / pegin / proof field or tap tree with >=2 leaves; accepted or \
+               must-reject variants; distinct by encoding.",
+        assumptions: &["the raw splitter is checked to re-join every library encoding identically before it is used"],
+        subs: vec![
+            Sub { name: "roundtrip", kind: Kind::Tape { max_len: 6000, quick: 8_000, thorough: 250_000, f: roundtrip } },
+            Sub { name: "byte_variants", kind: Kind::Tape { max_len: 6000, quick: 30_000, thorough: 800_000, f: byte_variants } },
+            Sub { name: "vectors", kind: Kind::Index { count: |t| t.pick(30, 600), exhaustive: false, f: vectors } },
+        ],
+        known: vec![Known { key: KF_TAPTREE, what: "the tap-tree codec reverses the leaf order on every hop: encode(decode(b)) alternates between two byte strings", repro: repro_taptree }],
+    }
 }
